@@ -1159,15 +1159,22 @@ func (bc *BlockChain) insertChain2(chain types.Blocks, try int) (int, []interfac
 		case err == ErrKnownBlock:
 			// Block and state both already known. However if the current block is below
 			// this number we did a rollback and we should reimport it nonetheless.
-			if cur := bc.CurrentBlock(); cur.NumberU64() >= block.NumberU64() {
+			cur := bc.CurrentBlock()
+			localTd, externTd := bc.GetTd(cur.Hash(), cur.NumberU64()), bc.GetTd(block.Hash(), block.NumberU64())
+			if cur.NumberU64() >= block.NumberU64() {
 				// ...unless it is heavier than the head: a crash or a failed
 				// write can leave a completely stored block that never
 				// became the head; it must still win when it is offered again.
-				localTd, externTd := bc.GetTd(cur.Hash(), cur.NumberU64()), bc.GetTd(block.Hash(), block.NumberU64())
 				if localTd == nil || externTd == nil || externTd.Cmp(localTd) <= 0 {
 					stats.ignored++
 					continue
 				}
+			} else if localTd != nil && externTd != nil && externTd.Cmp(localTd) <= 0 {
+				// Above the head but not heavier: a known block of a longer,
+				// lighter side branch, not a rollback. Nothing to reimport (its
+				// parent's state may long be pruned).
+				stats.ignored++
+				continue
 			}
 
 		case err == consensus.ErrFutureBlock:
